@@ -661,6 +661,13 @@ def expr_str(e):
     return str(e)
 
 
+def subexprs(e):
+    """all sub-expressions (tuples headed by a kind string), e included"""
+    out = []
+    expr_contains(e, lambda z: out.append(z) or False)
+    return out
+
+
 def expr_contains(e, pred):
     if pred(e):
         return True
